@@ -1,10 +1,12 @@
 import Mouette.Model.Proto
 import Mouette.Model.Attr
+import Mouette.Model.AttrHandles
 /-
 Protocol front-end for C05.
   request:  `<n0> <nops> op*`   with
      create <ty> <k> <N|scalar> | delete | cclear | set <i> S <scalar> | set <i> V <n> <scalar>* | get <i>
      | mut <i> <c> <scalar> | append | extl <n> | extc <m> | exts | clear | arr
+     | hold <i> | muth <h> <c> <scalar> | setfr <i> <j> | setsh (S <scalar> | V <n> <scalar>*) <nkeys> <key>*
      scalar ::= b:0|1  i:<int>  f:<p/q>  c:<p/q>,<p/q>  s:<chars>
   reply:  `<sparse trace> || <dense trace>`; a trace is ` | `-separated records `<obs>;<container size>;<len(attr)|->`
      obs ::= - | S <scalar> | V <k> <scalar>* | A <rows> <k> <scalar>* | err:<Kind>
@@ -55,6 +57,21 @@ def op : P Op := do
   | "arr" => pure .asArray
   | _ => failure
 
+def inVal : P InVal := do
+  let sh ← tok
+  if sh = "S" then do let x ← scalar; pure (.sc x)
+  else if sh = "V" then do let l ← listOf scalar; pure (.vec l)
+  else failure
+
+/-- extended operations; everything else is a base operation -/
+def op2 : P Op2 := fun ts =>
+  match ts with
+  | "hold" :: r => (do let i ← int; pure (Op2.hold i) : P Op2) r
+  | "muth" :: r => (do let h ← nat; let c ← nat; let x ← scalar; pure (Op2.updH h c x) : P Op2) r
+  | "setfr" :: r => (do let i ← int; let j ← int; pure (Op2.setFromRead i j) : P Op2) r
+  | "setsh" :: r => (do let v ← inVal; let keys ← listOf int; pure (Op2.setShared v keys) : P Op2) r
+  | _ => (do let o ← op; pure (Op2.base o) : P Op2) ts
+
 def fmtScalar : Scalar → String
   | .b v => if v then "b:1" else "b:0"
   | .i v => s!"i:{v}"
@@ -82,14 +99,14 @@ def record (before : State) (o : Obs) (after : State) : String :=
   let ln := match after.attr with | some a => toString (attrLen a) | none => "-"
   s!"{fmtObs k o};{after.size};{ln}"
 
-def trace (dense : Bool) (n0 : Nat) (ops : List Op) : String :=
-  let (_, out) := ops.foldl (fun (acc : State × List String) op =>
-    let (s', o) := step dense acc.1 op
-    (s', acc.2 ++ [record acc.1 o s'])) (init n0, [])
+def trace (dense : Bool) (n0 : Nat) (ops : List Op2) : String :=
+  let (_, out) := ops.foldl (fun (acc : State2 × List String) op =>
+    let (s', o) := step2 dense acc.1 op
+    (s', acc.2 ++ [record acc.1.st o s'.st])) (init2 n0, [])
   " | ".intercalate out
 
 def handle (ts : List String) : Option String :=
-  (runP (do let n0 ← nat; let ops ← listOf op; pure (n0, ops)) ts).map
+  (runP (do let n0 ← nat; let ops ← listOf op2; pure (n0, ops)) ts).map
     (fun (n0, ops) => trace false n0 ops ++ " || " ++ trace true n0 ops)
 
 end Mouette.DriveC05
